@@ -62,6 +62,20 @@ def cmpSpec (op : Option Op) (recorded value : MVal) : Bool :=
   | some .ge => (pyCmp false value recorded).toOption.getD false
   | none => false
 
+/-- **The operator table of the code as it stands** (`PlaybackModel.Source.operatorTable` is regenerated from
+`_operator_filter` on every run): exactly the five documented operators, each with its documented comparison. -/
+theorem C14_operator_table :
+    parseOp (.str "=") = some .eq ∧ parseOp (.str "<") = some .lt ∧ parseOp (.str "<=") = some .le ∧
+    parseOp (.str ">") = some .gt ∧ parseOp (.str ">=") = some .ge ∧
+    (∀ s : String, s ≠ "=" → s ≠ "<" → s ≠ "<=" → s ≠ ">" → s ≠ ">=" → parseOp (.str s) = none) ∧
+    (∀ v : MVal, (∀ s, v ≠ .str s) → parseOp v = none) := by
+  refine ⟨by decide, by decide, by decide, by decide, by decide, ?_, ?_⟩
+  · intro s h1 h2 h3 h4 h5
+    simp [parseOp, PlaybackModel.Atoms.lastMatch, PlaybackModel.Source.operatorTable, Ne.symm h1, Ne.symm h2, Ne.symm h3,
+      Ne.symm h4, Ne.symm h5]
+  · intro v hv
+    cases v <;> first | rfl | exact absurd rfl (hv _)
+
 /-- An operator object matches by comparison. -/
 theorem C14_operator (glob : String → String → Bool) (fs : List (String × MVal)) (op v r : MVal)
     (h : operatorParts fs = some (op, v)) :
